@@ -118,7 +118,9 @@ Definition c11_verify (toks : list (list N)) : list (list N) :=
 
 (* C11 live loopback scenario. Environment model (not part of the verified model): an echo request
    sent to a loopback address is answered at once by the kernel with an echo reply from that
-   address carrying the same identifier, sequence number and data. *)
+   address carrying the same identifier, sequence number and data. An IPv4 request with a TTL of 0
+   (setsockopt IP_TTL: EINVAL), with more than 65507 octets of data (EMSGSIZE) or for 255.255.255.255
+   (EACCES without SO_BROADCAST) cannot be sent: the sink answers "dropped". *)
 From TT Require Import Model.IcmpWaiters.
 
 Record live := {
@@ -155,6 +157,12 @@ Fixpoint live_run (fuel : nat) (T cap : N) (st : live) (ops : list (list N)) : l
     match ops with
     | [1; c; id; seq; ttl] :: ip :: data :: rest =>
       let k := (id, seq, data) in
+      let unsendable := (lenN ip =? 4)
+                        && ((ttl =? 0) || (65507 <? lenN data) || list_eqb N.eqb ip [255; 255; 255; 255]) in
+      if unsendable then
+        [1; 0] :: live_run f T cap
+                    {| lw := fst (wstep T cap (lw st) (WSendFailed c k (lnow st))); lnow := lnow st; lq := lq st |} rest
+      else
       let w1 := fst (wstep T cap (lw st) (WSend c k (lnow st))) in
       let st1 := {| lw := w1; lnow := lnow st; lq := lq st |} in
       let loopback := match ip with
